@@ -403,10 +403,11 @@ where
         (hasher.finish() & (self.n_buckets as u64 - 1)) as usize
     }
 
-    fn write_to_bucket(&mut self, i: usize, f: u64) -> bool {
+    fn write_to_bucket(&mut self, i: usize, f: u64, log: &mut Vec<(usize, u64)>) -> bool {
         let offset = i * self.bucketsize;
         for x in offset..(offset + self.bucketsize) {
             if self.table.get(x as u64) == 0 {
+                log.push((x, 0));
                 self.table.set(x as u64, f);
                 return true;
             }
@@ -442,11 +443,11 @@ where
         i2: usize,
         log: &mut Vec<(usize, u64)>,
     ) -> Result<bool, CuckooFilterFull> {
-        if self.write_to_bucket(i1, f) {
+        if self.write_to_bucket(i1, f, log) {
             self.n_elements += 1;
             return Ok(true);
         }
-        if self.write_to_bucket(i2, f) {
+        if self.write_to_bucket(i2, f, log) {
             self.n_elements += 1;
             return Ok(true);
         }
@@ -466,7 +467,7 @@ where
             f = tmp;
 
             i ^= self.hash(&f);
-            if self.write_to_bucket(i, f) {
+            if self.write_to_bucket(i, f, log) {
                 self.n_elements += 1;
                 return Ok(true);
             }
